@@ -228,8 +228,7 @@ def main(tier):
         c.run("checks.c04:STEP", {"via": "wire", "plen": 2})
         c.run("checks.c04:SEQ", {"k": 3, "via": "object", "start": "symbolic"})
         c.run("checks.c04:SEQ", {"k": 2, "via": "wire", "start": "symbolic"})
-        c.run("checks.c04:INFLIGHT", {"via": "object", "txs": list(range(8))})
-        c.run("checks.c04:INFLIGHT", {"via": "wire", "txs": [0, 3]})
+        c.run("checks.c04:INFLIGHT", {"via": "object", "txs": [0, 3, 5, 7]}, wall_s=3000)
         c.out_of_bounds += ["sequences longer than 3 frames (object level) / 2 frames (wire level) are covered by the inductive step only"]
     return c.finish()
 
